@@ -180,6 +180,28 @@ def check_cfg(ctx, fx, cfg):
         b = ctx.body(fx, f)
         calls = [t for _, t in b.normal_calls() if t.get("callee") == "channel::Channel::<A>::bounded"]
         if not calls:
+            # ... or, in a private helper, picks the constructor by an `Option` of the capacity:
+            # `with_capacity(Some(capacity))` .. `capacity.map_or_else(Channel::unbounded, Channel::bounded)`
+            import inline
+            ib = inline.body(ctx, fx, f, inline.not_public)
+            picks = [t for _, t in ib.normal_calls() if (t.get("callee") or "").startswith("core::option::{impl#0}::map") and any(a.get("k") == "const" and a.get("fn") == "channel::Channel::<A>::bounded" for a in t["args"][1:])]
+            if len(picks) == 1:
+                okp = False
+                for o in ib.origins(picks[0]["args"][0]):
+                    if o.kind == "agg" and not o.proj:
+                        a_ = ib.blocks[o.site[0]]["s"][o.site[1]]["r"]
+                        if a_.get("variant") == "Some" and len(a_.get("ops", [])) == 1:
+                            rs_ = [r for r in roots(ib, a_["ops"][0]) if r.kind != "local"]
+                            okp = bool(rs_) and all(r.kind == "arg" and not r.proj for r in rs_)
+                        else:
+                            okp = False
+                            break
+                    else:
+                        okp = False
+                        break
+                ctx.require(okp, "R12.2", "capacity:%s@%s" % (caller.split("::", 2)[-1], cfg), "the capacity must reach Channel::bounded unmodified", fn=caller, site=f["loc"])
+                continue
+        if not calls:
             # ... or hands it, unmodified, to another of these capacity-taking entry points (`self.bounded(capacity)`)
             calls = [t for _, t in b.normal_calls() if (t.get("resolved") or t.get("callee")) in CAP_ENTRIES and (t.get("resolved") or t.get("callee")) != caller]
             idx2 = CAP_ENTRIES.get((calls[0].get("resolved") or calls[0].get("callee"))) if calls else None
